@@ -301,11 +301,19 @@ def _shard_main(mod_name, tier, seed, shard, nshards, rundir, deadline):
                     state['failed'] = True
                     record_failure(case, out, 'generated')
                     raise AssertionError(out.violation)
+            flaky = False
             try:
                 run()
             except AssertionError:
                 pass
-            if fail_path.exists():
+            except hypothesis.errors.Flaky:
+                # the case failed once and passed when Hypothesis ran it again: the verdict is
+                # not a function of the input (machine load, timing); never a violation
+                flaky = True
+                stats.inconclusive['verdict_not_reproducible'] += 1
+                if fail_path.exists():
+                    fail_path.unlink()
+            if fail_path.exists() and not flaky:
                 stats.violations.append(json.loads(fail_path.read_text()))
     except BaseException as e:     # pylint: disable=broad-except
         stats.errors.append(f'{type(e).__name__}: {e}\n' + traceback.format_exc()[-3000:])
